@@ -677,6 +677,33 @@ func (k *Walker) Do(action string) {
 		if d, ok := k.pick(k.wtDirs()); ok {
 			w.Edit("rmdir", d, nil)
 		}
+	case "edit-link-over":
+		// a tracked path becomes ANOTHER NAME of something else: a symbolic link to another working file (tracked or
+		// not), or a second hard link to one. Writing the path "in place" later would change that other file.
+		var cands []string
+		idx0, _ := idx(w.State())
+		for _, p := range k.wtFiles() {
+			if _, tracked := idx0[p]; tracked && p != ".goitignore" && w.State().Odd["w/"+p] == "" {
+				cands = append(cands, p)
+			}
+		}
+		p, ok := k.pick(cands)
+		if !ok {
+			return
+		}
+		var t string
+		if q, ok := k.pick(k.wtFiles()); ok && q != p && q != ".goitignore" && w.State().Odd["w/"+q] == "" && k.chance(60) {
+			t = q
+		} else {
+			t = fmt.Sprintf("precious %d.txt", len(w.Steps))
+			w.Write(t, []byte("precious, never tracked: "+t+"\n"))
+		}
+		w.Edit("rm", p, nil)
+		if k.chance(65) {
+			w.Symlink(p, strings.Repeat("../", strings.Count(p, "/"))+t)
+		} else {
+			w.Hardlink(p, t)
+		}
 	case "edit-swap":
 		if !k.Swap {
 			return
@@ -906,4 +933,14 @@ func (k *Walker) doUpdateRef() {
 		k.invalid = "no-commit"
 	}
 	k.goit("update-ref", ref, id)
+}
+
+// Enable adds an optional action to the walker's repertoire.
+func (k *Walker) Enable(action string, weight int) {
+	if _, there := k.Weights[action]; !there {
+		k.keys = append(k.keys, action)
+		sort.Strings(k.keys)
+	}
+	k.total += weight - k.Weights[action]
+	k.Weights[action] = weight
 }
